@@ -26,8 +26,10 @@ cp = progs.cp
 strip_raw = progs.strip_raw
 
 BENCH_NAMES = ["f", "g", "add", "sub", "a1", "a01", "a10", "a2", "b", "z9", "r#fn", "r#match", "r#type",
-               "x_y", "Zeta", "é", "名前", "f10", "f2", "f1", "k", "r#loop", "run", "parse", "h", "q7"]
-MOD_NAMES = ["m", "n", "m2", "m10", "r#mod", "util", "deep", "a", "b", "r#impl", "inner", "x1"]
+               "x_y", "Zeta", "é", "名前", "f10", "f2", "f1", "k", "r#loop", "run", "parse", "h", "q7", "r#solo"]
+MOD_NAMES = ["m", "n", "m2", "m10", "r#mod", "util", "deep", "a", "b", "r#impl", "inner", "x1",
+             # raw identifiers that are NOT keywords (rustc drops their r# in module_path!())
+             "r#plain", "r#helpers"]
 RESERVED = {"common", "tymod", "main", "t0", "t1"}
 BENCH_CUSTOM = ["Custom", "my bench", "α", "n1", "bench-1", "Fast path"]
 GROUP_CUSTOM = ["Group One", "G", "grp", "β set", "io"]
@@ -262,8 +264,12 @@ def opt_strings(rnd, opts, k, allow_attr_ignore=True):
         out.append("skip_ext_time" if v and rnd.random() < 0.5 else f"skip_ext_time = {'true' if v else 'false'}")
     if "ignore" in opts:
         if opts["ignore"]:
-            c = rnd.choice(["bare", "eq", "attr_after", "attr_before"] if allow_attr_ignore else ["bare", "eq"])
-            form("ignore:" + {"bare": "option", "eq": "option=true", "attr_after": "#[ignore] after", "attr_before": "#[ignore] before"}[c])
+            c = rnd.choice(["bare", "eq", "attr_after", "attr_before", "reason_after", "reason_before"]
+                           if allow_attr_ignore else ["bare", "eq"])
+            if allow_attr_ignore and opts.get("ignore_form"):
+                c = opts["ignore_form"]
+            form("ignore:" + {"bare": "option", "eq": "option=true", "attr_after": "#[ignore] after", "attr_before": "#[ignore] before",
+                              "reason_after": "#[ignore = \"..\"] after", "reason_before": "#[ignore = \"..\"] before"}[c])
             if c == "bare":
                 out.append(key("ignore"))
             elif c == "eq":
@@ -360,6 +366,19 @@ def gen_program(rnd, pid, crate, rich=True):
         b["attr_style"] = rnd.choice(["single", "single", "multi", "lead_comment", "other_attrs"])
         b["host"] = None
         benches.append(b)
+    # every option ALONE on an item (nothing else in the attribute): the macros build the options
+    # record only when something is set, and each way of saying `ignore` is a case of its own
+    SOLO = [{"ignore": True}, {"ignore": True}, {"ignore": False}, {"sample_count": 3}, {"sample_size": 2},
+            {"threads": [2, 1]}, {"min_time_ns": 2}, {"max_time_ns": 1000}, {"skip_ext_time": True},
+            {"skip_ext_time": False}, {"counters": [[3, 77]]}, {"counters": [[0, 5]]}]
+    lone_ignore = {"ignore": True, "ignore_form": rnd.choice(["attr_before", "attr_after", "reason_before", "reason_after"])}
+    for i, o in enumerate([lone_ignore] + rnd.sample(SOLO, 3 if rich else 1)):
+        path = rnd.choice(mod_paths)
+        raw = fresh_name(path)
+        benches.append({"mods": path, "raw": raw, "name": strip_raw(raw), "kind": "plain", "opts": dict(o),
+                        "has_opts": True, "cost": rnd.choice(COST), "file": "", "line": 0, "col": 0,
+                        "sig": "plain", "abi": None, "ret": None, "attr_style": "single", "host": None,
+                        "no_host": True})
     # one external list shared by two benchmarks (the second refers to the first one's const)
     for i, b in enumerate(benches):
         if b["kind"] == "args" and b["arg"]["form"] in ("int_slice_const", "str_slice_const") and rnd.random() < 0.6:
@@ -539,6 +558,8 @@ def attr_chunks(rnd, macro, opts, style, entry, ign):
         ch.append([0, rnd.choice((["#[inline(never)]"] if macro == "bench" else []) + ["#[allow(dead_code)]", "/// documented"]), None])
     if ign == "attr_before":
         ch.append([0, "#[ignore]", None])
+    if ign == "reason_before":
+        ch.append([0, '#[ignore = "takes too long"]', None])
     lead = ""
     if style == "lead_comment":
         form("attribute:not at line start")
@@ -566,6 +587,8 @@ def attr_chunks(rnd, macro, opts, style, entry, ign):
         ch.append([0, lead + f"#[{macro}({', '.join(opts)}{trail})]", (entry, len(lead))])
     if ign == "attr_after":
         ch.append([0, "#[ignore]", None])
+    if ign == "reason_after":
+        ch.append([0, '#[ignore = "takes too long"]', None])
     if style == "other_attrs" and rnd.random() < 0.5:
         ch.append([0, "#[allow(unused)]", None])
     return ch
@@ -1014,7 +1037,7 @@ def write_package(batch, programs):
     keep = set()
     toml = ['[package]', f'name = "mgen-{batch.lower().replace("_", "-")}"', 'version = "0.0.0"', 'edition = "2021"',
             'publish = false', 'autobins = false', '', '[dependencies]',
-            'divan = { path = "/repo", default-features = false, features = ["divan_verif"] }',
+            'divan = { path = "%s", default-features = false, features = ["divan_verif"] }' % (V.REPO_OVERRIDE or "/repo"),
             'serde_json = "1"', '', '[workspace]', '', '[profile.dev]', 'opt-level = 0', 'debug = 0', 'incremental = false', '']
     for prog in programs:
         files = render_source(prog)
